@@ -54,6 +54,20 @@ def parse_head(data):
         hs.append((n, v.strip(b' \t')))
     return (lines[0], hs, i + 4)
 
+def plain_head(data, consumed):
+    """only printable ASCII and CRLF line ends, header names made of letters/digits/'-': the heads for which 'valid => accepted' is claimed"""
+    head = data[:consumed]
+    if any(not (0x20 <= b <= 0x7e or b in (13, 10)) for b in head):
+        return False
+    rest = head.replace(b'\r\n', b'')
+    if b'\n' in rest or b'\r' in rest:
+        return False
+    for l in head.split(b'\r\n')[1:]:
+        nm = l.split(b':', 1)[0]
+        if l and (not nm or b':' not in l or not all(chr(c).isalnum() or c == 0x2d for c in nm)):
+            return False
+    return True
+
 def values(hs, name):
     return [v for n, v in hs if n.lower() == name.lower()]
 
@@ -102,7 +116,7 @@ def mon_c15(case_line, trace):
                   and any(v == b'13' for v in ve) and len(ke) > 0 and not after)
     once_valid = (method_ok and version_ok and len(up) == 1 and up[0].lower() == b'websocket'
                   and len(co) == 1 and any(t.lower() == b'upgrade' for t in tokens(co[0]))
-                  and len(ve) == 1 and ve[0] == b'13' and len(ke) == 1 and not after and len(hs) <= 124)
+                  and len(ve) == 1 and ve[0] == b'13' and len(ke) == 1 and not after and len(hs) <= 124 and plain_head(inbound, consumed))
     wrote_101 = wire.startswith(b'HTTP/1.1 101')
     if outcome == 'ok' and not some_valid:
         return 'accepted-invalid: server handshake succeeded on a request that is not a valid upgrade: %r' % line[:60]
@@ -161,6 +175,10 @@ def mon_c17(case_line, trace):
     # reads of the reading stage: for a client they come after the request was flushed
     chunks = ev_chunks(evs)
     sizes = [len(c) for c in chunks]
+    if sizes and max(sizes) > 4096:
+        return 'read-too-large: one handshake read took %d bytes (the documented chunk is 4096)' % max(sizes)
+    if 'R:BUDGET' in evs or any('R:BUDGET' in o.events for o in ops):
+        return 'unbounded-work: the handshake kept reading past the transport-call budget'
     if len(sizes) > 513:
         return 'too-many-reads: %d data reads in one handshake' % len(sizes)
     if sum(sizes) > 65536 + 4096:
@@ -247,7 +265,7 @@ def mon_c16(case_line, trace, mline):
                   and any(v == accept_for(key) for v in ac) and ((len(sp) > 0) == (len(offered) > 0)) and all(True for _ in sp)
                   and (not sp or any(v in offered for v in sp)))
     once_valid = (status_ok and len(up) == 1 and up[0].lower() == b'websocket' and len(co) == 1 and co[0].lower() == b'upgrade'
-                  and ac == [accept_for(key)] and ((len(sp) == 1 and sp[0] in offered) if offered else len(sp) == 0) and len(rhs) <= 124)
+                  and ac == [accept_for(key)] and ((len(sp) == 1 and sp[0] in offered) if offered else len(sp) == 0) and len(rhs) <= 124 and plain_head(inbound, rcons))
     if outcome == 'ok' and not some_valid:
         return 'accepted-bad-response: client handshake succeeded on response %r with accept %r (expected %r)' % (rline[:40], ac, accept_for(key))
     if once_valid and not transport_bad and outcome not in ('ok', 'blocked'):
